@@ -282,7 +282,43 @@ def oracle_tree(t, n, poly, rng):
     return None
 
 
+def oracle_scaling():
+    """badly scaled numeric data: coefficients of size 2^-60 are coefficients, not zeros (every operation below is exact in
+    floating point because tiny and ordinary numbers are never added)"""
+    import sageopt as so
+    import sageopt.coniclifts as cl
+    from sageopt.symbolic.polynomials import Polynomial
+    t = 2.0 ** -60
+    alpha_g = np.array([[2, 0], [0, 1], [1, 1]])
+    g = Polynomial(alpha_g, t * np.array([1.0, -2.0, 3.0]))
+    v = cl.Variable(shape=(2,), name='mult')
+    s_sym = Polynomial(np.array([[0, 0], [1, 0]]), v)
+    f = Polynomial(np.array([[3, 1], [0, 0]]), t * np.array([5.0, -1.0]))
+    gam = cl.Variable(name='gam')
+    L = f - gam * t - s_sym * g            # every coefficient is tiny * (affine form with small integer coefficients)
+    vals = 2.0 ** 60 * np.array([1.0, 2.0])
+    v.value = vals
+    gam.value = 2.0 ** 60 * 3.0
+    s_num = Polynomial(np.array([[0, 0], [1, 0]]), vals)
+    want_fn = f - 3.0 - s_num * g
+    for pt in ([1.0, 2.0], [-0.5, 4.0], [2.0, -1.0]):
+        x = np.array(pt)
+        cs = np.array([float(ci.value) if hasattr(ci, 'value') else float(ci) for ci in L.c])
+        got = float(np.sum(cs * np.prod(np.power(x, L.alpha), axis=1)))
+        want = float(want_fn(x))
+        if got != want:
+            return ('L = f - gamma*t - s*g with coefficients of size 2^-60: after assigning the multiplier coefficients, L(%s) = %r but the '
+                    'numeric computation with the substituted coefficients gives %r (L has %d terms, the numeric one %d)'
+                    % (pt, got, want, L.m, want_fn.m))
+    return None
+
+
 def run(ctx):
+    why = oracle_scaling()
+    ctx.evaluations += 3
+    ctx.suites['scaling'] = {'cases': 3, 'failure': why}
+    if why:
+        ctx.problem('oracle', 'property fails on the implementation: ' + why, inputs={'suite': 'scaling'}, failing_input_found=True)
     cases = []
     for _ in range(ctx.n(350, 3500)):
         n = ctx.rng.randint(1, 2)
